@@ -65,7 +65,7 @@ theorem C20_func_rejects (ctx : Ctx) (c : ClsDesc) (word : Str) (line : Nat) (ar
     blockPre ctx c word line arg block hb st = raise ctx ⟨line, none⟩ st .unacceptableVarName := by
   subst ha
   have : a.isEmpty = false := by cases a <;> simp_all
-  simp [blockPre, hc, hfl, hreq, hstrip, this, hbad]
+  simp [blockPre, funcPre, repeatPre, hc, hfl, hreq, hstrip, this, hbad]
 
 /-- REPEAT / FOR: the counter name is checked before the first iteration, whatever the count -/
 theorem C20_counter_rejects (ctx : Ctx) (c : ClsDesc) (word : Str) (line : Nat) (a : Str) (block : List Node) (st : St)
@@ -73,7 +73,7 @@ theorem C20_counter_rejects (ctx : Ctx) (c : ClsDesc) (word : Str) (line : Nat) 
     (hne : a ≠ []) (v rest : Str) (hp : parseLoopArg (strip a) = (some v, rest)) (hbad : isVar v false = false) :
     blockPre ctx c word line (some a) block true st = raise ctx ⟨line, none⟩ st .unacceptableVarName := by
   have : a.isEmpty = false := by cases a <;> simp_all
-  simp [blockPre, hc, hfl, hreq, hstrip, this, hp, hbad]
+  simp [blockPre, funcPre, repeatPre, hc, hfl, hreq, hstrip, this, hp, hbad]
 
 /-- WHILE and loop iterations: binding the counter in the fresh stack rejects an invalid name -/
 theorem C20_while_counter_rejects (ctx : Ctx) (pos : Pos) (st cst : St) (v : Str) (n : Nat) (hbad : isVar v false = false) :
